@@ -53,7 +53,8 @@ STUBS = ['scripted transport for part 4']
 OUTSIDE = ['maildir (1 s poll timer)', 'the scheduler itself', 'TCP back-pressure while writing notifications']
 
 _g: dict = {}
-MUTATORS = ['append', 'update', 'delete', 'copy_in', 'move_out', 'claim_recent']
+MUTATORS = ['append', 'update', 'delete', 'copy_in', 'move_out', 'claim_recent', 'append_recent', 'copy_in_recent', 'move_in',
+            'move_in_recent']
 
 
 def setup() -> None:
@@ -93,6 +94,17 @@ def _mutate(g, sim, ms, mbx, other, op, sel_other):
             sim.run_coro(mbx.move(next(iter(mbx._messages)), other))
         else:
             sim.run_coro(mbx.append(AM(b'x', None, frozenset())))
+    elif op == 'append_recent':
+        # delivered while no read-write session has the mailbox selected (an EXAMINE idler still has to hear of it)
+        sim.run_coro(mbx.append(AM(b'x', None, frozenset()), recent=True))
+    elif op in ('copy_in_recent', 'move_in', 'move_in_recent'):
+        if not other._messages:
+            sim.run_coro(other.append(AM(b'y', None, frozenset())))
+        src = next(iter(other._messages))
+        if op == 'copy_in_recent':
+            sim.run_coro(other.copy(src, mbx, recent=True))
+        else:
+            sim.run_coro(other.move(src, mbx, recent=(op == 'move_in_recent')))
     elif op == 'claim_recent':
         sim.run_coro(mbx.append(AM(b'x', None, frozenset()), recent=True))
         sim.run_coro(mbx.claim_recent(sel_other))
@@ -136,7 +148,7 @@ def parked_scenario(g, sim, history, p, check):
 
 
 PUSH_OPS = ['append', 'flag_add', 'flag_del', 'flag_add_last', 'flag_del_last', 'delete', 'copy_in', 'move_out',
-            'claim_recent']
+            'claim_recent', 'append_recent', 'move_in_recent']
 
 
 def _mutate_push(g, sim, ms, mbx, other, op, sel_other):
